@@ -86,3 +86,11 @@ reg("C02", MC, "bounded exhaustive enumeration of point sets x force layouts x d
     "(cond, residual term, squared cond for the normal-equation path of the damped solver).",
     "Problems whose error bound exceeds 1e-3 relative, and rank-deficient ones, are counted as not compared; quick rotates through a third / "
     "sixth of the point subsets by seed (scikit-learn's ~3 ms per fit sets the budget), thorough runs all.", "DESIGN.md section 5, C02")
+reg("C04", MC, "bounded exhaustive enumeration of equivalent-input transformations (pairs of executions) per gridder and point subset",
+    "For every gridder configuration and every k-subset of a general-position integer point set, the base execution is compared with every "
+    "permutation of the points, every array layout / container, appended extra coordinates, integer dtypes of coordinates / data / query "
+    "separately and together, every query shape, and (for gridders linear in the data) every pair of basis data vectors under three "
+    "coefficient pairs. A raised exception in a transformed execution is a violation.",
+    "Layout/dtype relations at 8 eps x scale; permutation/linearity relations use a conditioning-aware bound from the reference SVD "
+    "(Cubic: 1e-4 x range under permutations, SciPy's gradient estimate is order dependent). quick rotates through subsets by seed.",
+    "DESIGN.md section 5, C04")
